@@ -40,7 +40,7 @@ def reader_candidates(o, seed):
         data = streams.adversarial_stream(rnd) if i % 3 else b"".join(x[1] for x in streams.wellformed_stream(rnd))
         cuts = [rnd.choice([None, None, None, 0, 1, 2, 3, 5]) for _ in range(rnd.randrange(0, 25))] if i % 2 else []
         yield {"data": data.hex(), "cuts": cuts, "quitonerror": rnd.choice([0, 1, 2]), "validate": rnd.choice([1, 1, 0]),
-               "parsed": rnd.choice([True, True, False]), "handler": rnd.choice([True, False])}
+               "parsed": rnd.choice([True, True, False, 0, 1]), "handler": rnd.choice([True, False])}
 
 
 def complete_candidates(o, seed):
@@ -60,7 +60,7 @@ def complete_candidates(o, seed):
             else:
                 out.append([k, b.hex()])
         yield {"items": out, "quitonerror": rnd.choice([0, 1, 2]), "validate": rnd.choice([1, 1, 0]),
-               "parsed": rnd.choice([True, True, False]), "handler": rnd.choice([True, True, False, "falsy"])}
+               "parsed": rnd.choice([True, True, False, 0, 1]), "handler": rnd.choice([True, True, False, "falsy"])}
 
 
 def parse_candidates(o, seed):
@@ -114,6 +114,15 @@ def message_candidates(o, seed, focus=None):
     rnd = random.Random(seed)
     for p in short_payloads():
         yield {"payload": p.hex()}
+    # other legal values of the label option (anything but 2 selects the RINEX code), MSM messages only
+    from spec import refdecode
+    for ident in list(refdecode.tables()[2])[::3]:
+        if focus and not focus(ident):
+            continue
+        p = encoder.complete_message(ident, rnd, "random")
+        if p is not None:
+            for lm in (0, True, 3):
+                yield {"payload": p.hex(), "labelmsm": lm}
     p0, p1, ln = model_get(o, "p0"), model_get(o, "p1"), model_get(o, "len")
     if p0 is not None and p1 is not None and ln is not None and 0 <= ln <= 1023:
         yield {"payload": (bytes([p0 & 255, p1 & 255]) + bytes(max(ln - 2, 0)))[:ln].hex()}
@@ -149,8 +158,66 @@ def header_candidates(o, seed):
 M_ = "pyrtcm.rtcmmessage.RTCMMessage"
 
 
+def frame_replay(o, seed):
+    """A violation of the shared-state scan: look for a history that shows it on the real code (two objects / two calls);
+    the scan itself is a concrete evaluation on the real source, so it stands as the witness when no history is found."""
+    from props import C13
+    rnd = random.Random(seed)
+    tries = []
+    if "socketwrapper" in o["name"]:
+        from props.C11 import sock_candidates
+        tries.append(("socket_history", ({"streams": [[d.hex(), [x for x in sc if isinstance(x, int)], bs] for d, sc, bs in list(sock_candidates(seed + j))[:3]]}
+                                         for j in range(40)), "socket-history"))
+    if "rtcmreader" in o["name"]:
+        tries.append(("reader_history", reader_history_candidates(seed), "reader-history"))
+    if "rtcmmessage" in o["name"]:
+        from spec import streams, encoder
+        cands = [{"payload": streams.good_payloads(rnd).hex()} for _ in range(20)] + [{"payload": p.hex()} for _, p in encoder.corpus(seed, per_type=1, patterns=("random",))][:60]
+        tries.append(("immutable", iter(cands), "immutable"))
+    tries.append(("history_independence", C13.history_candidates(seed, 80), "history"))
+    for spec, cands, key in tries:
+        r = try_candidates(spec, cands, key=lambda i, r, key=key: key)
+        if r.get("reproduced"):
+            return r
+    return {"reproduced": True, "spec": "frame_scan", "input": {"obligation": o["name"]}, "expected": "no write outside the frame",
+            "observed": o.get("model"), "key": o["name"]}
+
+
+def reader_history_candidates(seed):
+    """Two readers alive at the same time with different options, read alternately."""
+    from spec import streams
+    rnd = random.Random(seed)
+    for k in range(60):
+        a = b"".join(x[1] for x in streams.wellformed_stream(rnd))
+        b = b"".join(x[1] for x in streams.wellformed_stream(rnd))
+        if k % 2:
+            f = streams.frame(streams.good_payloads(rnd))
+            a += f[:-1] + bytes([f[-1] ^ 0x55])  # a frame with a wrong checksum: accepted by a validate=0 reader only
+        yield {"streams": [a.hex(), b.hex()], "options": [{"validate": rnd.choice([0, 1]), "labelmsm": rnd.choice([1, 2])},
+                                                           {"validate": rnd.choice([0, 1]), "labelmsm": rnd.choice([1, 2])}]}
+
+
 def generic_replay(o, seed):
     """Dispatch on the function the obligation belongs to."""
+    if o["name"].startswith("frame."):
+        return frame_replay(o, seed)
+    if o["name"].startswith("api."):
+        from spec import streams, encoder, refdecode
+        rnd = random.Random(seed)
+
+        def cands():
+            for ident in list(refdecode.tables()[2])[:40]:
+                p = encoder.complete_message(ident, rnd, "random")
+                if p is not None:
+                    f = streams.frame(p)
+                    for v, lm in ((1, 2), (2, 1), (0, 2), (2, 2), (3, 1)):
+                        yield {"message": f.hex(), "validate": v, "labelmsm": lm}
+                        yield {"message": (f[:-1] + bytes([f[-1] ^ 1])).hex(), "validate": v, "labelmsm": lm}
+        r = try_candidates("positional_call", cands(), key=lambda i, r: "positional")
+        if r.get("reproduced"):
+            return r
+        return {"reproduced": True, "spec": "signature", "input": {"obligation": o["name"]}, "expected": "pinned parameter order and defaults",
+                "observed": o.get("model"), "key": o["name"]}
     n = (o.get("unit") or o["name"]).split("[")[0]
     if n.startswith(("crc.", "lemma", "C")) or "." not in n:
         n = o["name"]
@@ -166,6 +233,18 @@ def generic_replay(o, seed):
         return r if r.get("reproduced") or not ("dechunk" in n or "chunked" in o["name"]) else C12.replay(o, seed)
     if n.endswith("RTCMReader.parse"):
         return try_candidates("parse_static", parse_candidates(o, seed), key=lambda i, r: "parse")
+    if n.endswith(("RTCMReader.__iter__", "RTCMReader.__next__")):
+        from spec import streams
+        rnd = random.Random(seed)
+
+        def it_cands():
+            for k in range(200):
+                items = streams.wellformed_stream(rnd)
+                data = b"".join(streams.damage(b, rnd) if kind == "rtcm" and rnd.random() < 0.4 else b for kind, b, _ in items)
+                yield {"data": data.hex(), "quitonerror": rnd.choice([2, 2, 1, 0])}
+        r = try_candidates("iteration_protocol", it_cands(), key=lambda i, r: "iteration")
+        if r.get("reproduced"):
+            return r
     if "rtcmreader" in n or "ext.Stream" in n:
         cands = reader_candidates(o, seed)
         if "bytearray-stream" in (o.get("unit") or "") + o["name"]:
@@ -201,6 +280,10 @@ def generic_replay(o, seed):
         cands += [{"payload": p.hex()} for _, p in encoder.corpus(seed, per_type=1, patterns=("random",))]
         return try_candidates("immutable", iter(cands), key=lambda i, r: "immutable")
     if "rtcmmessage" in n:
+        if n.endswith(".__init__"):  # every message number / sub-type header first (unknown and reserved numbers construct a stub)
+            r = try_candidates("identity", header_candidates(o, seed), key=lambda i, r: "identity", limit=20000)
+            if r.get("reproduced"):
+                return r
         r = try_candidates("message_decode", message_candidates(o, seed), key=lambda i, r: "decode")
         if r.get("reproduced") or not n.endswith(".__init__"):
             return r
